@@ -37,7 +37,7 @@ MCMinors == << [name |-> "1.001", major |-> 1, silent |-> <<>>],   [name |-> "1.
                [name |-> "4#1.001", major |-> 3, silent |-> <<>>], [name |-> "4#2.001", major |-> 4, silent |-> <<>>] >>
 MCPCN == [diff10 |-> 100, fit10 |-> 10, pars |-> 37500, parsL |-> 18750, parsR |-> 9375, cnMax100 |-> 2000, gapN |-> 0, gapD |-> 1]
 MCPStage == [thrN |-> 1, thrD |-> 2, minCov10 |-> 20, cnMax |-> 20, novelPen |-> 210000, gapN |-> 0, gapD |-> 1,
-             missPen |-> 15000, addPen |-> 10000]
+             missPen |-> 15000, addPen |-> 10000, phasePen |-> 4000]
 
 CONSTANTS CountsV, CountsR, DepthSel
 (* region depths (1/100 copies) in Regions order up,e1,i1,e2: gene / pseudogene *)
